@@ -11,6 +11,7 @@ class Job:
         self.fuel, self.timeout_ms, self.max_paths = fuel, timeout_ms, max_paths
         self.witness = witness or []      # note tags that must all be reached on some feasible path (vacuity guard)
         self.str_mode = str_mode
+        self.max_seconds = None
         self.weight = weight
 
 
@@ -34,6 +35,7 @@ def run_job(mirs, job, tier, seed):
     mir = mirs[job.profile]
     tmo = job.timeout_ms or (10_000 if tier == 'quick' else 120_000)
     ex = Explorer(tmo, seed)
+    ex.deadline = time.time() + (job.max_seconds or (300 if tier == 'quick' else 3000))
     findings, samples = [], []
     reached = set()
     status = 'ok'; err = None
@@ -46,6 +48,12 @@ def run_job(mirs, job, tier, seed):
             vm.tier = tier
             try:
                 out = job.fn(vm, *job.args)
+                # vacuity guard: an unchecked assumption may have made this path condition unsatisfiable
+                if ex.model is None:
+                    r_, m_ = vm.check_sat()
+                    if r_ == z3.unsat: raise Infeasible()
+                    if r_ != z3.sat: raise Unmodelled('solver returned unknown on the final feasibility check of a path')
+                    ex.model = m_
                 ex.stats.paths += 1
                 for n in vm.notes: reached.add(n[0] if isinstance(n, tuple) else n)
                 reached.update(getattr(vm, 'witness', ()))
@@ -74,6 +82,7 @@ def run_job(mirs, job, tier, seed):
                     findings.append(finding(p.kind, role, p.msg, cex, vm.notes))
             if job.max_paths and ex.stats.paths >= job.max_paths:
                 raise BoundExceeded(f'more than {job.max_paths} paths')
+            if time.time() > ex.deadline: raise BoundExceeded('job time limit')
             if not ex.backtrack(): break
     except Unmodelled as e:
         status, err = 'inconclusive', f'unmodelled: {e}'
